@@ -20,7 +20,7 @@ from ..seams import quiet
 from .. import vsim
 
 PROP = 'C01'
-TIERS = {'quick': 2100, 'thorough': 25000}
+TIERS = {'quick': 2100, 'thorough': 75000}
 RULE = ('each run: a seeded design of 3-40 library blocks (every inlined emitter, Reg body with all option combinations, '
         'hand-written memory body, blocks shared through structureName with equal and unequal parameters, per-instance '
         'modules), hierarchy depth 0-3, widths 1-70, 10-60 cycles of boundary-biased vectors from power-up; non-trivial = '
